@@ -906,20 +906,28 @@ class IRGenerator:
         recursive chains can be followed accurately.
         """
         data_types_seen = set()
+        data_types_in_progress = set()
+        # data type -> how many of its annotations were known when it was
+        # referred to while it was still being analyzed
+        data_types_cut = {}
 
         def recurse(data_type):
             # primitive types do not have annotations
             if not is_composite_type(data_type):
                 return set()
 
-            # if we have already analyzed data type, just return result
-            if data_type.recursive_custom_annotations is not None:
-                return data_type.recursive_custom_annotations
+            # handle cycles safely: take what is known of the data type so far
+            # (the analysis is repeated below until that is everything)
+            if data_type in data_types_in_progress:
+                annotations = data_type.recursive_custom_annotations or set()
+                data_types_cut[data_type] = len(annotations)
+                return annotations
 
-            # handle cycles safely (annotations will be found first time at top level)
+            # if we have already analyzed data type, just return result
             if data_type in data_types_seen:
-                return set()
+                return data_type.recursive_custom_annotations
             data_types_seen.add(data_type)
+            data_types_in_progress.add(data_type)
 
             annotations = set()
 
@@ -946,30 +954,41 @@ class IRGenerator:
             elif is_nullable_type(data_type):
                 annotations.update(recurse(data_type.data_type))
 
+            data_types_in_progress.remove(data_type)
             data_type.recursive_custom_annotations = annotations
             return annotations
 
-        for namespace in self.api.namespaces.values():
-            namespace_annotations = set()
-            for data_type in namespace.data_types:
-                namespace_annotations.update(recurse(data_type))
+        # Data types on a reference cycle see, in one pass, only part of each
+        # other's annotations. Repeat until a pass finds nothing new for them.
+        while True:
+            data_types_seen.clear()
+            data_types_cut.clear()
 
-            for alias in namespace.aliases:
-                namespace_annotations.update(recurse(alias))
+            for namespace in self.api.namespaces.values():
+                namespace_annotations = set()
+                for data_type in namespace.data_types:
+                    namespace_annotations.update(recurse(data_type))
 
-            for route in namespace.routes:
-                namespace_annotations.update(recurse(route.arg_data_type))
-                namespace_annotations.update(recurse(route.result_data_type))
-                namespace_annotations.update(recurse(route.error_data_type))
+                for alias in namespace.aliases:
+                    namespace_annotations.update(recurse(alias))
 
-            # record annotation types as dependencies of the namespace. this allows for
-            # an optimization when processing custom annotations to ignore annotation
-            # types that are not applied to the data type, rather than recursing into it
-            for _, annotation in namespace_annotations:
-                if annotation.annotation_type.namespace.name != namespace.name:
-                    namespace.add_imported_namespace(
-                        annotation.annotation_type.namespace,
-                        imported_annotation_type=True)
+                for route in namespace.routes:
+                    namespace_annotations.update(recurse(route.arg_data_type))
+                    namespace_annotations.update(recurse(route.result_data_type))
+                    namespace_annotations.update(recurse(route.error_data_type))
+
+                # record annotation types as dependencies of the namespace. this allows for
+                # an optimization when processing custom annotations to ignore annotation
+                # types that are not applied to the data type, rather than recursing into it
+                for _, annotation in namespace_annotations:
+                    if annotation.annotation_type.namespace.name != namespace.name:
+                        namespace.add_imported_namespace(
+                            annotation.annotation_type.namespace,
+                            imported_annotation_type=True)
+
+            if all(len(data_type.recursive_custom_annotations) == known
+                   for data_type, known in data_types_cut.items()):
+                break
 
     def _populate_field_defaults(self):
         """
